@@ -75,6 +75,12 @@ func genericPack(c *Ctx) {
 		c.Note("G-pack: no anchored packages resolved for %s", c.Prop)
 		return
 	}
+	// plus the utility packages (private/pkg/…) the anchored packages import directly: the anchored code runs through
+	// them (path arithmetic, slice helpers, storage views, thread pools), and a slip of one of these shapes there is a
+	// slip in the mechanism the property names
+	nAnch := len(pkgs)
+	pkgs = withSupportPackages(c, pkgs)
+	c.Note("G-pack: %d anchored package(s) + %d utility package(s) they import directly", nAnch, len(pkgs)-nAnch)
 	ruleFlagLoop(c, "G-FLAGLOOP", pkgs)
 	ruleLoopAccum(c, "G-LOOP-ACCUM", pkgs)
 	ruleOnceResultLost(c, "G-ONCE-RESULT-LOST", pkgs)
@@ -104,4 +110,29 @@ func genericPack(c *Ctx) {
 		c.Rule("G-DEFER-KEEPS-ERR", "a deferred assignment to a named error result joins, wraps or is guarded by the current value", 0)
 		ruleDefer(c, "G-DEFER-KEEPS-ERR", pkgs)
 	}
+}
+
+func withSupportPackages(c *Ctx, pkgs []*packages.Package) []*packages.Package {
+	have := map[string]bool{}
+	for _, pk := range pkgs {
+		have[pk.PkgPath] = true
+	}
+	byPath := map[string]*packages.Package{}
+	for _, pk := range c.P.ModulePkgs() {
+		byPath[pk.PkgPath] = pk
+	}
+	out := append([]*packages.Package(nil), pkgs...)
+	for _, pk := range pkgs {
+		for path := range pk.Imports {
+			if have[path] || !strings.HasPrefix(path, modPath+"/private/pkg/") {
+				continue
+			}
+			if sp := byPath[path]; sp != nil {
+				have[path] = true
+				out = append(out, sp)
+			}
+		}
+	}
+	sort.Slice(out, func(i, j int) bool { return out[i].PkgPath < out[j].PkgPath })
+	return out
 }
